@@ -315,6 +315,7 @@ func (m *Mercury) doRemoveNode(ctx context.Context, podname, nodename, endpoint 
 		fmt.Sprintf(nodeCaKey, nodename),
 		fmt.Sprintf(nodeCertKey, nodename),
 		fmt.Sprintf(nodeKeyKey, nodename),
+		filepath.Join(nodeStatusPrefix, nodename), // the status doesn't outlive the node
 	}
 
 	_, err := m.BatchDelete(ctx, keys)
